@@ -125,7 +125,8 @@ func Compress(msg *pb.XuperMessage) *pb.XuperMessage {
 
 // Decompress decompress msg
 func Decompress(msg *pb.XuperMessage) ([]byte, error) {
-	if msg == nil || msg.Header == nil || msg.Data == nil || msg.Data.MsgInfo == nil {
+	// a payload whose encoding is empty arrives with a nil MsgInfo (empty bytes are omitted on the wire)
+	if msg == nil || msg.Header == nil || msg.Data == nil {
 		return []byte{}, errors.New("param error")
 	}
 
